@@ -247,15 +247,24 @@ def tern(tm, cm, n):
   return k
 
 
+def documented_score(diag, budget_hi=None):
+  """The documented score tuple, built from the diagnostics' attributes WITHOUT the library's score classes:
+  (correlation test, A/A test, Brownian-bridge test, Durbin-Watson test as 0/1, correlation rounded to two decimals,
+  1 / required impact -- or maximum budget / required impact, evaluated as 1 / (impact / budget))."""
+  import numpy as np
+  imp = np.float64(diag.required_impact)
+  with np.errstate(all='ignore'):
+    last = np.float64(1.0) / (imp / np.float64(budget_hi)) if budget_hi is not None else np.float64(1.0) / imp
+  return (int(bool(diag.corr_test)), int(bool(diag.aatest.test_ok)), int(bool(diag.bbtest.test_ok)), int(bool(diag.dwtest.test_ok)),
+          float(round(np.float64(diag.corr), 2)), float(last))
+
+
 def score_tuple(diag, budget_hi):
-  """(gkey, skey) exactly as the two searches build them, from a fresh diagnostics object."""
-  from matched_markets.methodology import tbrmmscore
-  s = tbrmmscore.TBRMMScore(diag).score
-  g = tuple(s)
+  """(gkey, skey): the keys the two searches rank designs by, from a fresh diagnostics object and the documented
+  composition of the score (not from the library's TBRMMScore, which is part of what is being checked)."""
+  g = documented_score(diag)
   if budget_hi is not None:
-    iroas = diag.required_impact / budget_hi
-    s2 = s._replace(inv_required_impact=1 / iroas)
-    return g, tuple(s2)
+    return g, documented_score(diag, budget_hi)
   return g, g
 
 
